@@ -51,6 +51,8 @@ where
 /*@*/     ensures
 /*@*/     /*L*/     cap_post(old, old_range, new, new_range, res@, false),   // [C02,C09,C10]
 /*@*/     /*S*/     cap_post(old, old_range, new, new_range, res@, true),    // [C11]
+/*@*/     /*L*/     (true && alg != Algorithm::Patience) ==> cap_eqs(old, old_range, new, new_range, res@, false)
+/*@*/     /*L*/         == lcs_len(old, old_range.start as int, old_range.end as int, new, new_range.start as int, new_range.end as int),   // [C03]
 {
     capture_diff_deadline(alg, old, old_range, new, new_range, None)
 }
@@ -76,6 +78,8 @@ where
 /*@*/     ensures
 /*@*/     /*L*/     cap_post(old, old_range, new, new_range, res@, false),   // [C02,C09,C10]
 /*@*/     /*S*/     cap_post(old, old_range, new, new_range, res@, true),    // [C11]
+/*@*/     /*L*/     (deadline is None && alg != Algorithm::Patience) ==> cap_eqs(old, old_range, new, new_range, res@, false)
+/*@*/     /*L*/         == lcs_len(old, old_range.start as int, old_range.end as int, new, new_range.start as int, new_range.end as int),   // [C03]
 {
     let mut d = Compact::new(Replace::new(Capture::new()), old, new);
     /*@*/ let ghost rel = rel_of(old, new);
@@ -102,7 +106,8 @@ where
     /*@*/     reveal(step_rel);
     /*@*/     let lvl = alg_lvl(deadline);
     /*@*/     let s = choose|q: Seq<Ev>| #[trigger] seg(old, new, lvl, q, os, ns, oe, ne) && d.trace() == d0.trace() + q + fin::<Compact<Old, New, Replace<Capture>>>()
-    /*@*/         && (d0.relies() ==> d.rely_st() == run_rel(d0.rely_rel(), d0.rely_st(), q + fin::<Compact<Old, New, Replace<Capture>>>()));
+    /*@*/         && (d0.relies() ==> d.rely_st() == run_rel(d0.rely_rel(), d0.rely_st(), q + fin::<Compact<Old, New, Replace<Capture>>>()))
+    /*@*/         && ((deadline is None && alg != Algorithm::Patience) ==> seg_eqs(rel, lvl, q, os, ns, oe, ne) == lcs_len(old, os, oe, new, ns, ne));
     /*@*/     lemma_seg_any(rel, rel, lvl, s, os, ns, oe, ne, d0.rely_st());
     /*@*/     lemma_run_fin::<Compact<Old, New, Replace<Capture>>>(rel, d0.rely_st(), s);
     /*@*/     assert(d.rely_st().ok && d.rely_st().fin);
@@ -130,11 +135,12 @@ where
     /*@*/     assert(q0.oc == os && q0.nc == ns && q0.oe == oe && q0.ne == ne && q0.lvl == lr);
     /*@*/     // what the Replace adapter received adds up to the compacted ops
     /*@*/     lemma_run_ops_acc(rel, i0, ops1);
-    /*@*/     lemma_sum_mono(ops1, 0, ops1.len() as int);
+    /*@*/     lemma_sums_mono(ops1, 0, ops1.len() as int);
     /*@*/     assert(rp.rst().oc == oe && rp.rst().nc == ne);
     /*@*/     let xs = rp.xs();
     /*@*/     assert(xs.ok && xs.oc == oe && xs.nc == ne);
     /*@*/     assert(evs_of(cp.ops_spec()) == rp.em_());
+    /*@*/     assert(xs.eqs == seg_eqs(rel, lvl, s, os, ns, oe, ne));   // [C03]
     /*@*/ }
     d.into_inner().into_inner().into_ops()
 }
@@ -150,6 +156,8 @@ where
 /*@*/     ensures
 /*@*/     /*L*/     cap_post(old, (0..old.len()), new, (0..new.len()), res@, false),   // [C02,C09,C10]
 /*@*/     /*S*/     cap_post(old, (0..old.len()), new, (0..new.len()), res@, true),    // [C11]
+/*@*/     /*L*/     (true && alg != Algorithm::Patience) ==> cap_eqs(old, (0..old.len()), new, (0..new.len()), res@, false)
+/*@*/     /*L*/         == lcs_len(old, (0..old.len()).start as int, (0..old.len()).end as int, new, (0..new.len()).start as int, (0..new.len()).end as int),   // [C03]
 {
     capture_diff_slices_deadline(alg, old, new, None)
 }
@@ -170,6 +178,8 @@ where
 /*@*/     ensures
 /*@*/     /*L*/     cap_post(old, (0..old.len()), new, (0..new.len()), res@, false),   // [C02,C09,C10]
 /*@*/     /*S*/     cap_post(old, (0..old.len()), new, (0..new.len()), res@, true),    // [C11]
+/*@*/     /*L*/     (deadline is None && alg != Algorithm::Patience) ==> cap_eqs(old, (0..old.len()), new, (0..new.len()), res@, false)
+/*@*/     /*L*/         == lcs_len(old, (0..old.len()).start as int, (0..old.len()).end as int, new, (0..new.len()).start as int, (0..new.len()).end as int),   // [C03]
 {
     capture_diff_deadline(alg, old, 0..old.len(), new, 0..new.len(), deadline)
 }
